@@ -16,7 +16,22 @@ func zlist(l []int64) []any {
 
 // full form: per-push padding pattern (cyclic), response padding, mode, targets
 func sendSz(c, ty, n1, n2, tag int64, pads []int64, rpad, mode int64, targets ...int64) hx.T {
-	return hx.C("OSend", c, ty, n1, n2, tag, zlist(pads), rpad, mode, zlist(targets))
+	return hx.C("OSend", c, ty, n1, n2, tag, zlist(pads), rpad, mode, zlist(targets), false, int64(0))
+}
+
+// the same request completing asynchronously: the handler returns, the whole sequence (pushes,
+// completion, pushes) is issued in a later turn of its service
+func later(o hx.T) hx.T {
+	o.Args = append([]any{}, o.Args...)
+	o.Args[9] = true
+	return o
+}
+
+// the same request whose handler first kicks connection k
+func kicking(o hx.T, k int64) hx.T {
+	o.Args = append([]any{}, o.Args...)
+	o.Args[10] = k
+	return o
 }
 
 func padList(pad int64) []int64 {
@@ -92,6 +107,21 @@ func fixedCases(tier string) [][]hx.T {
 		{hx.C("OConn", 1, 0), sendSz(1, 0, 4, 1, 1, []int64{5, -1, 0, -1}, 0, 0), sendSz(1, 2, 4, 1, 2, []int64{-1, 3}, 0, 0)},
 		{hx.C("OProto"), hx.C("OConn", 1, 0), hx.C("OConn", 2, 0), hx.C("OKey", 1, 2), sendSz(1, 1, 6, 2, 1, []int64{-1, 0, 6000}, 5000, 1, 1, 2),
 			sendSz(2, 0, 5, 0, 2, []int64{-1}, 0, 2, 1, 2), sendSz(2, 2, 3, 3, 3, nil, 70000, 0)},
+		// asynchronous completion: the handler returns, then - in one later turn of its service - pushes,
+		// completes, pushes again: front-local and forwarded, both serializers, mixed with synchronous ones
+		{hx.C("OConn", 1, 0), later(send(1, 0, 2, 2, 1, 0))},
+		{hx.C("OConn", 1, 0), later(send(1, 0, 3, 3, 1, 0)), later(send(1, 0, 0, 2, 2, 0)), send(1, 0, 1, 1, 3, 0), later(send(1, 0, 0, 40, 4, 0))},
+		{hx.C("OConn", 1, 0), later(send(1, 2, 3, 3, 1, 0)), later(send(1, 2, 0, 2, 2, 0)), send(1, 2, 1, 1, 3, 0), hx.C("OKey", 1, 2), later(send(1, 1, 2, 2, 4, 0))},
+		{hx.C("OProto"), hx.C("OConn", 1, 0), hx.C("OConn", 2, 0), later(sendSz(1, 0, 4, 4, 1, []int64{0, 6000, -1, 7}, 5000, 1, 1, 2)), later(sendSz(2, 0, 3, 3, 2, []int64{-1, 0}, 0, 2, 2, 1)),
+			later(sendSz(2, 2, 3, 3, 3, nil, 70000, 0)), later(send(1, 0, 0, 3, 4, 0))},
+		// a handler kicks a connection and pushes to a list naming it BEFORE live ones, in the same turn
+		// (the kicked one is closed, its session still registered): every live one gets every push -
+		// front-local and through sys.pushmsg, by ids and through a channel, at once and from a later turn
+		{hx.C("OConn", 1, 0), hx.C("OConn", 2, 0), hx.C("OConn", 3, 0), send(2, 0, 1, 1, 1, 0), kicking(sendTo(1, 0, 2, 2, 2, 0, 1, 2, 1, 3), 2), send(3, 0, 1, 1, 3, 0), send(2, 0, 1, 1, 4, 0)},
+		{hx.C("OConn", 1, 0), hx.C("OConn", 2, 0), hx.C("OConn", 3, 0), send(2, 2, 1, 1, 1, 0), kicking(sendTo(1, 2, 2, 2, 2, 0, 1, 2, 1, 3), 2), send(3, 2, 1, 1, 3, 0), sendTo(1, 2, 1, 1, 4, 0, 1, 2, 3, 1)},
+		{hx.C("OConn", 1, 0), hx.C("OConn", 2, 0), hx.C("OConn", 3, 0), kicking(sendTo(1, 0, 2, 2, 1, 0, 2, 3, 2, 1), 3), kicking(later(sendTo(1, 2, 2, 2, 2, 0, 2, 2, 1, 3)), 2), send(1, 0, 1, 1, 3, 0)},
+		{hx.C("OProto"), hx.C("OConn", 1, 0), hx.C("OConn", 2, 0), hx.C("OConn", 3, 0), hx.C("OKey", 3, 1), kicking(later(sendTo(3, 1, 3, 1, 1, 0, 1, 1, 2, 3)), 1), kicking(sendTo(3, 0, 2, 2, 2, 0, 1, 2, 2, 3), 2),
+			kicking(send(3, 0, 1, 1, 3, 0), 3), kicking(send(3, 2, 1, 1, 4, 0), 7)},
 		// sizes varying WITHIN one issue sequence (C03-4: a big packet overtaking queued small ones)
 		{hx.C("OConn", 1, 0), sendSz(1, 0, 3, 0, 1, []int64{0, 6000, 0}, 0, 0), sendSz(1, 0, 3, 0, 2, nil, 6000, 0)},
 		{hx.C("OConn", 1, 0), sendSz(1, 2, 3, 0, 1, []int64{0, 6000, 0}, 0, 0), sendSz(1, 2, 3, 0, 2, nil, 6000, 0)},
@@ -125,9 +155,15 @@ func gen(cfg *hx.Config, i int) ([]hx.T, []string) {
 		ops = append(ops, hx.C("OProto"))
 	}
 	conn := map[int64]bool{}
+	gone := map[int64]bool{} // kicked (most probably): what is sent on it afterwards is ignored
+	stalls := false
 	tag := int64(1)
 	for len(ops) < n {
 		c := 1 + r.Int63n(nconn)
+		if gone[c] && r.Intn(4) != 0 {
+			n-- // (keeps the loop finite when everybody is gone)
+			continue
+		}
 		if !conn[c] {
 			slow := int64(0)
 			if r.Intn(15) == 0 {
@@ -141,6 +177,7 @@ func gen(cfg *hx.Config, i int) ([]hx.T, []string) {
 		switch p := r.Intn(100); {
 		case p < 3:
 			tags["stall"] = true
+			stalls = true
 			ops = append(ops, hx.C("OStall", c, int64(20+r.Intn(120))))
 		case p < 22:
 			v := hx.Pick(r, []int64{1, 1, 2, 2, 0})
@@ -206,7 +243,35 @@ func gen(cfg *hx.Config, i int) ([]hx.T, []string) {
 					n1 = 60
 				}
 			}
-			ops = append(ops, sendSz(c, ty, n1, n2, tag, pads, rpad, mode, targets...))
+			o := sendSz(c, ty, n1, n2, tag, pads, rpad, mode, targets...)
+			if r.Intn(4) == 0 {
+				tags["completes-later"] = true
+				o = later(o)
+			}
+			if nconn > 1 && !stalls && r.Intn(8) == 0 {
+				// the handler kicks another connection first; mostly that one is listed before the live targets
+				k := 1 + r.Int63n(nconn)
+				if conn[k] && k != c && !gone[k] {
+					tags["kick"] = true
+					if mode == 0 && r.Intn(2) == 0 {
+						mode = int64(1 + r.Intn(2))
+						targets = []int64{c}
+						if k3 := 1 + r.Int63n(nconn); k3 != k {
+							targets = append(targets, k3)
+						}
+					}
+					if mode != 0 && r.Intn(4) != 0 {
+						tags["kicked-listed-first"] = true
+						targets = append([]int64{k}, targets...)
+					}
+					o.Args[7], o.Args[8] = mode, zlist(targets)
+					o = kicking(o, k)
+					if ty != 1 {
+						gone[k] = true
+					}
+				}
+			}
+			ops = append(ops, o)
 			tag++
 		}
 	}
